@@ -79,7 +79,9 @@ def run_case(case, work, rec):
     # the second input starts from the first one's layout, then the relation is applied
     m2base.layout = [dict(l) for l in m1.copy().layout]
     p1 = os.path.join(work, "plt1")
-    gen.write_plotfile(m1, p1)
+    fmt = lambda: dict(ref_ratio_extra=rng.choice([0, 0, 1, 3]), trailing_blank=rng.random() < 0.7,
+                       close_blank=rng.random() < 0.3, floatfmt=rng.choice(["repr", "17g"]))
+    gen.write_plotfile(m1, p1, **fmt())
     e1 = refmodel.from_model(m1)
     digest = common.sha(g, n1, n2, case["shuffle1"])
     rec.sample({"plotfile1": gen.describe(m1), "fields2": n2})
@@ -90,7 +92,7 @@ def run_case(case, work, rec):
     for rel in RELS:
         m2 = gen.relayout(m2base, case["sel_seed"] + RELS.index(rel), rel)
         p2 = os.path.join(work, f"plt2_{rel}")
-        gen.write_plotfile(m2, p2)
+        gen.write_plotfile(m2, p2, **fmt())
         e2 = refmodel.from_model(m2)
         s1 = rng.sample(n1, rng.randint(1, len(n1)))
         s2 = rng.sample(n2, rng.randint(1, len(n2)))
